@@ -9,8 +9,8 @@ import textwrap
 from fractions import Fraction as Fr
 
 ID = "C14"
-LEAN_MODULES = ["EzdxfVerif.Props.C14"]
-DRIVER_DEPS = ["EzdxfVerif.Model.Flatten", "EzdxfVerif.Gen.FlattenKernels", "Drivers.Proto"]
+LEAN_MODULES = ["EzdxfVerif.Props.C14", "EzdxfVerif.Props.C14Path"]
+DRIVER_DEPS = ["EzdxfVerif.Model.Flatten", "EzdxfVerif.Model.FlattenPath", "EzdxfVerif.Gen.FlattenKernels", "Drivers.Proto"]
 
 RULE = (
     "correspondence (Lean model over exact Rat vs the real code; dyadic control points / knots / parameters and power-of-two "
@@ -20,40 +20,61 @@ RULE = (
     "X4 ConstructionEllipse.flattening against the model run on the table of evaluations recorded by wrapping the curve's point "
     "function (floats as exact rationals). A case is dropped (and counted) when the model run at distance*(1-1e-6) and distance*(1+1e-6) "
     "differ (a test inside the decision band) except the deliberate exact-tie family, or when coordinates are so large that the float "
-    "cancellation in distance_point_line_3d exceeds the band. Non-trivial = not a straight/degenerate curve. "
+    "cancellation in the distance function exceeds the band. Non-trivial = not a straight/degenerate curve. "
+    "Session 3: X5 generated histories of Path operations (line_to, move_to, curve3_to, curve4_to, close, close_sub_path, reversed, "
+    "append_path, extend_multi_path on two registers): the private storage (_start_index, _commands, _has_sub_paths, _vertices) after EVERY "
+    "operation (incl. transform(m) with exact affine maps), sub_paths(), _start_of_last_sub_path(), end; X6 Path.flattening of generated single- and multi-paths with both Bezier twins, "
+    "exact vertex lists incl. distance 0 (ValueError); X7 tools.add_bezier4p / add_bezier3p on generated chains (connected, broken, reversed, "
+    "closed, straight and half-straight members); X8 the curve assembly of add_2d_polyline.bulge_to (the curves returned by every "
+    "cubic_bezier_from_ellipse call are recorded and given to the model), add_2d_polyline without bulges and converter.from_vertices; X9 every add_bezier4p call made by "
+    "make_path(entity) over the entity generator of O5 (path before + curves -> path after); X10 the parameter prelude of "
+    "ConstructionEllipse.flattening (param, end_param, first step: the model's exact values rounded to double); X11 "
+    "converter.from_hatch_edge_path on generated line/arc edge paths (all connection cases, several loops). "
     "oracle (real code only): O1 arcs/circles (sagitta of every chord <= distance, vertices on the circle, equal counter-clockwise turns, "
     "ends; sagitta around r, 2r, ulp neighbours); O2-O4 Bezier twins / Bezier / BSpline / ellipse (parameters strictly increasing, ends, "
     ">= segments chords (per knot span), vertices on the curve by independent evaluation, curve point at the middle parameter within "
     "distance of the chord; non power-of-two segments, six decades of tolerance); O5 make_path(entity) for LINE CIRCLE ARC ELLIPSE SPLINE "
     "LWPOLYLINE POLYLINE2D/3D HATCH against an independent parametrisation of the entity in WCS (start, end, direction, deviation) and "
     "Path.flattening = concatenation of the per-curve flattenings; O6 path -> polylines3d/2d/lwpolylines/hatches/splines/lines -> path, "
-    "multi-paths, NumpyPath2d, nesting."
+    "multi-paths, NumpyPath2d, nesting; O7 full circles as closed two-bulge LWPOLYLINE far from the origin."
 )
 TRUSTED_BASE = [
     "hand model Model/Flatten.lean of the four flattening methods, tied to the code by the correspondence streams and by the re-extracted "
     "kernel pieces of Gen/FlattenKernels.lean (tie_* theorems); not a mechanical translation of the loops",
+    "hand model Model/FlattenPath.lean of ezdxf.path.Path (element view; the flat storage is derived and compared with the private fields "
+    "of the real object after every operation, X5), of Path._approximate/flattening, add_bezier4p/3p, the bulge_to assembly, from_vertices: "
+    "tied by X5-X9 and by the statement text of 17 Path methods and 8 tools functions re-extracted on every run (tie_path_methods, tie_path_tools)",
+    "make_path dispatch: the LIVE singledispatch registry and the builder calls of every handler are regenerated (tie_make_path_dispatch, "
+    "make_path_dispatch_covered); what the handlers compute BEFORE they call a builder (construction tools, OCS) is not modelled (oracle O5, X9)",
     "Vec3 arithmetic (lerp, distance, project, isclose) is component-wise as modelled by V3 (properties C10/C11)",
     "float arithmetic is not modelled: the theorems are about exact rational/real arithmetic; the correspondence uses inputs on which the "
     "float parameter arithmetic is exact and excludes tests within 1e-6 relative of the threshold",
     "the mini translator of the arc formulas (ast -> RExpr trees) and the real semantics evalE given to the trees in Props/C14.lean "
     "(sqrt/asin domain errors, float division by zero, ceil)",
-    "CPython math.isclose / numpy.isclose semantics as modelled by pyIsclose / npIsclose (defaults re-read from the running interpreter)",
+    "CPython math.isclose / float % semantics as modelled by pyIsclose / pyMod (defaults re-read from the running interpreter)",
     "B-spline and ellipse point evaluation itself is not modelled here (property C13): the model runs on the recorded evaluations",
 ]
 ASSUMPTIONS = [
-    "positive tolerances only (flattening(0.0) never terminates in both twins: theorem nonpositive_distance_never_finishes)",
+    "positive tolerances only (flattening(0.0) never terminates in both twins: theorem nonpositive_distance_never_finishes; "
+    "Path.flattening(0.0) raises ValueError at the first curve: model + X6)",
     "segments < 10^9 (beyond that isclose(t1, 1.0) snaps early)",
-    "termination is not claimed: flat_sound is a partial-correctness theorem (fuel / recursion budget)",
-    "ellipse parameter normalisation prelude (start % tau, end_param += tau) is outside the model: oracle only",
+    "termination is PROVED for Bezier3P, Bezier4P and whole paths (bezier3_terminates, bezier4_terminates, path_flat_terminates: a sufficient "
+    "recursion budget exists; it can exceed RECURSION_LIMIT = 1000 of the Cython twin for extreme inputs - then RecursionError, stated in "
+    "rec_eq_stack / twins_agree); for B-splines and ellipses only conditionally (recSub_terminates: if all chords below some width pass)",
+    "ellipse: param_span (arc_angle_span_rad) is an input of the prelude model, its consistency with the computed range is a hypothesis of "
+    "ellipse_full_sound",
 ]
 OPEN = [
-    "termination of the subdivision for smooth curves is not proved",
-    "stack_eq_rec is one direction only (recursion result => stack machine result); the converse holds up to RecursionError and is not proved",
-    "sagitta_bound is about the real-valued formulas (incl. the clamp min(x, 1.0) of fix 677c29f93); float rounding is covered by the oracle only "
-    "(sagitta within a few ulps of r, 2r)",
-    "make_path dispatch per entity type, add_ellipse/add_spline/add_2d_polyline, to_* converters, nesting: not modelled, oracle on the real code only",
-    "the B-spline/ellipse test is the distance to the LINE through the chord ends: lineTest_not_documented / bspline_line_test_counterexample "
-    "show that it does not establish the documented distance to the chord (known findings C14-4a/4b)",
+    "termination of BSpline / ConstructionEllipse flattening is conditional only (curve evaluation is outside the model)",
+    "sagitta_bound / arc_flattening_sound are about the real-valued formulas (incl. the clamp min(x, 1.0) of fix 677c29f93); float rounding is "
+    "covered by the oracle only (sagitta within a few ulps of r, 2r)",
+    "make_path: the construction tools in front of the builders (ConstructionEllipse.from_arc, cubic_bezier_from_ellipse, bezier_decomposition, "
+    "bulge_to_arc trigonometry, OCS -> WCS) are not modelled: the curves they return are inputs of the model (recorded in X8/X9), their geometry "
+    "is checked by oracle O5 (and C13 for the bulge laws)",
+    "to_hatches / to_splines_and_polylines / nesting: oracle only; path -> 3D polyline -> path and path -> LWPOLYLINE/2D polyline -> path "
+    "are proved (polyline_roundtrip, polyline2d_roundtrip), the loops of HATCH edge paths are proved closed single paths (edgeLoops_closed)",
+    "known findings C14-7 (closed curves reversed by add_bezier4p; model: closed_chain_added_reversed) and C14-8 (full circle LWPOLYLINE within "
+    "isclose tolerance loses one half) remain: the candidate fix is not test-clean",
 ]
 
 SRC_FILES = [
@@ -322,8 +343,8 @@ def point_kernel_pyx(src: str, cls: str) -> str:
     return "; ".join(l for l in clines + lines if l and l != "cdef:")
 
 
-def distance_point_line_kernel(src: str) -> str:
-    fn = _find_method(ast.parse(src), None, "distance_point_line_3d")
+def distance_point_line_kernel(src: str, name: str = "distance_point_line_3d") -> str:
+    fn = _find_method(ast.parse(src), None, name)
     return _stmts(_body(fn))
 
 
@@ -418,6 +439,61 @@ def path_linear_rules(src: str) -> list[tuple[str, str]]:
     return out
 
 
+PATH_METHODS = ["line_to", "move_to", "curve3_to", "curve4_to", "close", "close_sub_path", "_start_of_last_sub_path",
+                "append_path_element", "reversed", "sub_paths", "extend_multi_path", "append_path", "is_closed", "end",
+                "flattening", "_approximate", "transform", "to_wcs"]
+TOOLS_FUNCS = ["add_bezier4p", "add_bezier3p", "add_2d_polyline", "add_ellipse", "add_spline", "to_multi_path", "single_paths"]
+MODELLED_BUILDERS = ["tools.add_2d_polyline", "tools.add_spline", "tools.add_ellipse", "from_vertices", "path.line_to",
+                     "tools.to_multi_path", "from_hatch_boundary_path", "make_path", "Path"]
+
+
+def path_kernels(path_src: str, tools_src: str, conv_src: str) -> dict:
+    """statement text of the Path methods / tools functions the hand model Model/FlattenPath.lean copies"""
+    tree = ast.parse(path_src)
+    methods = []
+    for name in PATH_METHODS:
+        fn = _find_method(tree, "Path", name)
+        methods.append((name, _stmts(_body(fn))))
+    mvi = _find_method(tree, None, "make_vertex_index")
+    methods.append(("make_vertex_index", _stmts(_body(mvi))))
+    ttree = ast.parse(tools_src)
+    tools = [(name, _stmts(_body(_find_method(ttree, None, name)))) for name in TOOLS_FUNCS]
+    ctree = ast.parse(conv_src)
+    tools.append(("from_vertices", _stmts(_body(_find_method(ctree, None, "from_vertices")))))
+    fhe = _find_method(ctree, None, "from_hatch_edge_path")
+    tools.append(("from_hatch_edge_path.loops", _stmts([st for st in _body(fhe) if not isinstance(st, ast.FunctionDef)])))
+    tol = None
+    for n in ttree.body:
+        if isinstance(n, ast.Assign) and isinstance(n.targets[0], ast.Name) and n.targets[0].id == "IS_CLOSE_TOL":
+            tol = _u(n.value)
+    if tol is None:
+        raise Extract("IS_CLOSE_TOL not found in path/tools.py")
+    return {"methods": methods, "tools": tools, "is_close_tol": tol}
+
+
+def make_path_dispatch(conv_src: str):
+    """T-tab: the LIVE singledispatch registry of make_path (class -> handler) and, from the source of every handler,
+    the path builders it calls (the calls a hand model has to cover)"""
+    from ezdxf.path import converter
+
+    reg = converter.make_path.registry
+    table = sorted((cls.__name__ if cls is not object else "object", fn.__name__) for cls, fn in reg.items())
+    tree = ast.parse(conv_src)
+    builders = []
+    for hname in sorted({h for _, h in table}):
+        fn = _find_method(tree, None, hname)
+        calls = []
+        for n in ast.walk(fn):
+            if isinstance(n, ast.Call):
+                t = _u(n.func)
+                if t.startswith("tools.") or t in ("from_vertices", "path.line_to", "make_path", "from_hatch_boundary_path", "Path") \
+                        or t.startswith("ConstructionEllipse"):
+                    if t not in calls:
+                        calls.append(t)
+        builders.append((hname, sorted(calls)))
+    return table, builders
+
+
 def _pairs(name: str, doc: str, pairs) -> str:
     items = ",\n   ".join(f"({_lean_str(k)}, {_lean_str(v)})" for k, v in pairs)
     return f"/-- {doc} -/\ndef {name} : List (String × String) :=\n  [{items}]\n"
@@ -447,6 +523,17 @@ def regenerate(ctx):
 
     pvis = inspect.signature(pv.Vec3.isclose).parameters
     arc = arc_kernels(src["src/ezdxf/math/arc.py"])
+    pk = path_kernels(src["src/ezdxf/path/path.py"], src["src/ezdxf/path/tools.py"], src["src/ezdxf/path/converter.py"])
+    dispatch, builders = make_path_dispatch(src["src/ezdxf/path/converter.py"])
+    import ezdxf.path.path as _pp
+    from ezdxf.path.commands import Command as _Cmd
+
+    cmd_size = dict(_pp.CMD_SIZE)
+    cmd_codes = sorted(((c.name, int(c)) for c in _Cmd), key=lambda kv: kv[1])
+    lin = dict(path_linear_rules(src["src/ezdxf/path/tools.py"]))
+    if lin["add_bezier4p.rel_tol"] != lin["add_bezier3p.rel_tol"] or lin["add_bezier4p.abs_tol"] != lin["add_bezier3p.abs_tol"]:
+        raise Extract("add_bezier4p / add_bezier3p use different straight-line tolerances")
+    lin_rel, lin_abs = lin["add_bezier4p.rel_tol"], lin["add_bezier4p.abs_tol"]
     text = f"""
 import EzdxfVerif.Model.Flatten
 namespace EzdxfVerif.Gen.FlattenKernels
@@ -459,6 +546,8 @@ def pyxAbsTol : Rat := {_rat(Fr(consts["ABS_TOL"]))}
 /-- defaults of CPython `math.isclose` (text signature of the running interpreter) -/
 def mathRelTol : Rat := {_rat(Fr(mm.group(1)))}
 def mathAbsTol : Rat := {_rat(Fr(mm.group(2)))}
+/-- the double `math.tau` -/
+def mathTau : Rat := {_rat(Fr(math.tau))}
 /-- defaults of `numpy.isclose` -/
 def npRtol : Rat := {_rat(Fr(repr(nsig["rtol"].default)))}
 def npAtol : Rat := {_rat(Fr(repr(nsig["atol"].default)))}
@@ -478,8 +567,27 @@ def pyxIscloseBody : String := {_lean_str(iso_txt)}
 {_pairs("arcFlattening", "ConstructionArc.flattening / ConstructionCircle.flattening", arc_flattening_kernels(src["src/ezdxf/math/arc.py"], src["src/ezdxf/math/circle.py"]))}
 {_pairs("pathLinearRules", "add_bezier4p / add_bezier3p (path/tools.py): when a Bezier segment is stored as LINE_TO", path_linear_rules(src["src/ezdxf/path/tools.py"]))}
 
+{_pairs("pathMethods", "ezdxf.path.Path: the methods Model/FlattenPath.lean copies (statement text)", pk["methods"])}
+{_pairs("pathTools", "path/tools.py + converter.from_vertices: the functions Model/FlattenPath.lean copies", pk["tools"])}
+{_pairs("makePathDispatch", "LIVE registry of the singledispatch function make_path: entity class -> handler", dispatch)}
+/-- path builders called by every make_path handler (from the handler source) -/
+def makePathBuilders : List (String × List String) :=
+  [{(","+chr(10)+"   ").join("(" + _lean_str(h) + ", [" + ", ".join(_lean_str(b) for b in bs) + "])" for h, bs in builders)}]
+
+/-- `CMD_SIZE` of the live module path.path: (Command value, vertices per command) -/
+def cmdSizeTable : List (Nat × Nat) := [{", ".join(f"({int(k)}, {int(v)})" for k, v in sorted(cmd_size.items()))}]
+/-- `Command` enum of the live module path.commands -/
+def commandCodes : List (String × Nat) := [{", ".join(f"({_lean_str(k)}, {int(v)})" for k, v in cmd_codes)}]
+/-- `rel_tol` / `abs_tol` of the straight-line rule of add_bezier4p / add_bezier3p -/
+def pathLinearRelTol : Rat := {_rat(Fr(lin_rel))}
+def pathLinearAbsTol : Rat := {_rat(Fr(lin_abs))}
+/-- `IS_CLOSE_TOL` of path/tools.py -/
+def pathIsCloseTol : Rat := {_rat(Fr(pk["is_close_tol"]))}
+
 /-- `distance_point_line_3d`, math/construct3d.py -/
 def distancePointLine3d : String := {_lean_str(distance_point_line_kernel(src["src/ezdxf/math/construct3d.py"]))}
+/-- `distance_point_segment_3d`, math/construct3d.py (the test of BSpline / ConstructionEllipse.flattening) -/
+def distancePointSegment3d : String := {_lean_str(distance_point_line_kernel(src["src/ezdxf/math/construct3d.py"], "distance_point_segment_3d"))}
 
 /-- point kernels of the four Bezier twins -/
 def bez4PointPy : String := {_lean_str(point_kernel_py(src["src/ezdxf/math/_bezier4p.py"], "Bezier4P"))}
@@ -857,7 +965,7 @@ def bspline_cases(ctx):
 def correspond_bspline(ctx):
     from ezdxf.math import BSpline
 
-    stream = "X3 BSpline.flattening (recursive generator, distance to the chord line)"
+    stream = "X3 BSpline.flattening (recursive generator per knot span, distance to the chord)"
 
     class Proxy:
         def __init__(self, ev, rec):
@@ -948,7 +1056,7 @@ def correspond_ellipse(ctx):
     import ezdxf.math.ellipse as em
     from ezdxf.math import ConstructionEllipse, Vec3, Z_AXIS
 
-    stream = "X4 ConstructionEllipse.flattening (recursive generator, distance to the chord line)"
+    stream = "X4 ConstructionEllipse.flattening (recursive generator, distance to the chord)"
     cases, reqs = [], []
     for kind, center, major, ratio, a, b, d, segs in ellipse_cases(ctx):
         mj = Vec3(major)
@@ -994,11 +1102,500 @@ def correspond_ellipse(ctx):
     ctx.correspond(stream, "C14", final, build=_deps_once(ctx))
 
 
+# ====================================================================== correspondence: Path machine (session 3)
+def _vtxt(v) -> str:
+    return pt(key3(v))
+
+
+def show_path(p) -> str:
+    """flat storage of a real Path in the driver's `showPath` format (private fields on purpose: the model derives them)"""
+    return (",".join(str(int(i)) for i in p._start_index) + "!" + ",".join(str(int(c)) for c in p._commands) + "!"
+            + ("1" if p._has_sub_paths else "0") + "!" + ",".join(_vtxt(v) for v in p._vertices))
+
+
+def _dy(rng, scale=8, frac=4):
+    return rng.randint(-scale * frac, scale * frac) / frac
+
+
+def _dpt(rng, flat=False):
+    return (_dy(rng), _dy(rng), 0.0 if flat else _dy(rng))
+
+
+# exact isometries (rows r1 r2 r3 of the matrix, translation b): quarter turns, a reflection, a 3-4-5 rotation
+ISOMETRIES = [
+    ((0.0, -1.0, 0.0), (1.0, 0.0, 0.0), (0.0, 0.0, 1.0), (5.0, 7.0, 9.0)),
+    ((0.0, 1.0, 0.0), (1.0, 0.0, 0.0), (0.0, 0.0, 1.0), (0.0, 0.0, 0.0)),
+    ((1.0, 0.0, 0.0), (0.0, 0.0, -1.0), (0.0, 1.0, 0.0), (-2.0, 0.5, 0.25)),
+    ((0.75, 0.0, -0.5), (0.0, 1.0, 0.0), (0.5, 0.0, 0.75), (0.0, 0.0, 0.0)),  # NOT orthonormal scaling 13/16: a similarity (general affine map)
+    ((-1.0, 0.0, 0.0), (0.0, -1.0, 0.0), (0.0, 0.0, 1.0), (1.0, 1.0, 1.0)),
+]
+
+
+def path_histories(ctx, n, curves=True, max_ops=12):
+    """generated histories of Path operations for the two-register machine of the driver; points are dyadic and
+    drawn from a small pool so that coincidences (close(), is_closed, append_path without bridge) are frequent"""
+    rng = ctx.rng("path-hist")
+    for i in range(n):
+        pool = [_dpt(rng, flat=rng.random() < 0.3) for _ in range(rng.randint(2, 5))]
+
+        def pnt():
+            return rng.choice(pool) if rng.random() < 0.6 else _dpt(rng)
+
+        ops = [("N", pnt())]
+        for _ in range(rng.randint(0, max_ops)):
+            k = rng.random()
+            if k < 0.28:
+                ops.append(("L", pnt()))
+            elif k < 0.42:
+                ops.append(("M", pnt()))
+            elif k < 0.52 and curves:
+                ops.append(("Q", pnt(), pnt()))
+            elif k < 0.64 and curves:
+                ops.append(("C", pnt(), pnt(), pnt()))
+            elif k < 0.70:
+                ops.append(("Z",))
+            elif k < 0.76:
+                ops.append(("S",))
+            elif k < 0.79:
+                ops.append(("R",))
+            elif k < 0.82:
+                ops.append(("T",) + rng.choice(ISOMETRIES))
+            elif k < 0.88:
+                ops.append(("X",))
+                if rng.random() < 0.5:
+                    ops.append(("N", pnt()))
+            elif k < 0.94:
+                ops.append(("A",))
+            else:
+                ops.append(("E",))
+        yield ops
+
+
+def ops_txt(ops) -> str:
+    return ";".join(" ".join([o[0]] + [pt(a) for a in o[1:]]) for o in ops)
+
+
+def run_ops_real(ops, states=None):
+    """execute a history on the real Path class; returns the two registers (current first)"""
+    from ezdxf.path import Path
+
+    p, q = Path(), Path()
+    for o in ops:
+        k = o[0]
+        if k == "N":
+            p = Path(o[1])
+        elif k == "L":
+            p.line_to(o[1])
+        elif k == "M":
+            p.move_to(o[1])
+        elif k == "Q":
+            p.curve3_to(o[1], o[2])
+        elif k == "C":
+            p.curve4_to(o[1], o[2], o[3])
+        elif k == "Z":
+            p.close()
+        elif k == "S":
+            p.close_sub_path()
+        elif k == "R":
+            p = p.reversed()
+        elif k == "T":
+            from ezdxf.math import Matrix44
+
+            r1, r2, r3, b = o[1:]
+            p = p.transform(Matrix44([r1[0], r2[0], r3[0], 0.0, r1[1], r2[1], r3[1], 0.0, r1[2], r2[2], r3[2], 0.0, b[0], b[1], b[2], 1.0]))
+        elif k == "X":
+            p, q = q, p
+        elif k == "A":
+            p.append_path(q)
+        elif k == "E":
+            p.extend_multi_path(q)
+        if states is not None:
+            states.append(show_path(p))
+    return p, q
+
+
+def correspond_path_ops(ctx):
+    stream = "X5 Path operations: flat storage after every operation, sub_paths(), _start_of_last_sub_path, end"
+    cases = []
+    for ops in path_histories(ctx, ctx.n(1500, 12000)):
+        states = []
+        p, _ = run_ops_real(ops, states)
+        sp = p._start_of_last_sub_path()
+        resp = ("|".join(states) + "#" + "|".join(show_path(x) for x in p.sub_paths()) + "#"
+                + (_vtxt(sp) if sp is not None else "-") + "#" + _vtxt(p.end))
+        kinds = {o[0] for o in ops}
+        ctx.hist(stream, "multi" if p.has_sub_paths else ("curves" if p.has_curves else "lines"))
+        cases.append(("path|" + ops_txt(ops), resp, len(ops) > 2 and len(kinds) > 2))
+    ctx.correspond(stream, "C14", cases, build=_deps_once(ctx))
+
+
+def _flat_real(p, d, segs, twin):
+    """Path.flattening on the real code with the chosen Bezier twin"""
+    import ezdxf.path.path as pp
+    import ezdxf.math._bezier4p as m4
+    import ezdxf.math._bezier3p as m3
+    import ezdxf.acc.bezier4p as a4
+    import ezdxf.acc.bezier3p as a3
+
+    old = pp.Bezier4P, pp.Bezier3P
+    pp.Bezier4P, pp.Bezier3P = (m4.Bezier4P, m3.Bezier3P) if twin == "py" else (a4.Bezier4P, a3.Bezier3P)
+    try:
+        return "ok " + ",".join(_vtxt(v) for v in bounded(p.flattening(d, segs)))
+    except Exception as e:  # noqa
+        return impl_error(e)
+    finally:
+        pp.Bezier4P, pp.Bezier3P = old
+
+
+def correspond_path_flattening(ctx):
+    stream = "X6 Path.flattening of generated single- and multi-paths (both Bezier twins, exact vertex lists)"
+    rng = ctx.rng("path-flat")
+    dists = [2.0 ** -k for k in range(0, 8)] + [0.1, 0.01, 3.0, 0.0]
+    reqs, cases = [], []
+    for ops in path_histories(ctx, ctx.n(500, 4000), max_ops=8):
+        p, _ = run_ops_real(ops)
+        d = rng.choice(dists)
+        segs = rng.choice((1, 2, 4, 4, 8))
+        txt = ops_txt(ops)
+        for twin in ("py", "pyx"):
+            mk = (lambda dd, twin=twin, segs=segs, txt=txt: f"pflat|{twin}|{fs(dd)}|{segs}|{txt}")
+            kind = "d=0" if d == 0.0 else ("multi" if p.has_sub_paths else ("curves" if p.has_curves else "lines"))
+            reqs.append((kind, mk, d))
+            cases.append((kind, mk(Fr(d)), _flat_real(p, d, segs, twin), p.has_curves))
+    keep = band_filter(ctx, stream, reqs)
+    final = []
+    for k, (kind, req, resp, nt) in zip(keep, cases):
+        if k:
+            ctx.hist(stream, kind)
+            final.append((req, resp, nt))
+    ctx.correspond(stream, "C14", final, build=_deps_once(ctx))
+
+
+def _curve_txt(c) -> str:
+    return ",".join(_vtxt(v) for v in c.control_points)
+
+
+def _rand_chain(rng, deg, start=None):
+    """a list of Bezier control point tuples: connected / broken / closed / with straight and half-straight members"""
+    n = rng.randint(1, 4)
+    out = []
+    cur = start if start is not None else _dpt(rng)
+    first = cur
+    for i in range(n):
+        if rng.random() < 0.2:
+            cur = _dpt(rng)  # gap: bridged by LINE_TO
+        end = _dpt(rng)
+        if i == n - 1 and rng.random() < 0.3:
+            end = first  # closed chain
+        if deg == 4:
+            c1, c2 = _dpt(rng), _dpt(rng)
+            k = rng.random()
+            if k < 0.15:
+                c1, c2 = cur, end  # straight: LINE_TO
+            elif k < 0.3:
+                c1 = cur  # one handle retracted: still a curve
+            elif k < 0.4:
+                c2 = end
+            out.append((cur, c1, c2, end))
+        else:
+            c = _dpt(rng)
+            k = rng.random()
+            if k < 0.15:
+                c = cur
+            elif k < 0.3:
+                c = end
+            out.append((cur, c, end))
+        cur = end
+    return out
+
+
+def correspond_add_bezier(ctx):
+    from ezdxf.math import Bezier4P, Bezier3P, Vec3
+    from ezdxf.path import tools
+
+    stream = "X7 tools.add_bezier4p / add_bezier3p: reversal rule, bridging LINE_TO, straight-segment rule"
+    rng = ctx.rng("addbez")
+    cases = []
+    hist = list(path_histories(ctx, ctx.n(800, 6000), max_ops=4))
+    for ops in hist:
+        ops = [o for o in ops if o[0] not in ("X", "A", "E", "T")]
+        p, _ = run_ops_real(ops)
+        deg = rng.choice((4, 4, 3))
+        mode = rng.choice(["at-end", "at-end", "reversed", "free"])
+        end = tuple(p.end)
+        chain = _rand_chain(rng, deg, start=end if mode != "free" else None)
+        if mode == "reversed":
+            chain = [tuple(reversed(c)) for c in reversed(chain)]
+        curves = [(Bezier4P if deg == 4 else Bezier3P)([Vec3(v) for v in c]) for c in chain]
+        (tools.add_bezier4p if deg == 4 else tools.add_bezier3p)(p, curves)
+        ctx.hist(stream, f"deg{deg}/{mode}")
+        cases.append((f"addbez|{deg}|{ops_txt(ops)}|" + "~".join(_curve_txt(c) for c in curves), show_path(p), True))
+    ctx.correspond(stream, "C14", cases, build=_deps_once(ctx))
+
+
+def correspond_polyline_assembly(ctx):
+    """add_2d_polyline with ONE bulge segment after some straight ones: the curves returned by every call of
+    cubic_bezier_from_ellipse are recorded (they are inputs of the model), the assembly - order of the sub-arcs,
+    reversal of the whole chain, add_bezier4p - is the model's `bulgeTo`"""
+    from ezdxf.math import OCS
+    from ezdxf.path import Path, tools, converter
+
+    stream = "X8 add_2d_polyline.bulge_to curve assembly (recorded sub-arc curves) and converter.from_vertices"
+    rng = ctx.rng("bulge-asm")
+    cases = []
+    orig = tools.cubic_bezier_from_ellipse
+    for i in range(ctx.n(600, 5000)):
+        pts = [(_dy(rng), _dy(rng), 0.0) for _ in range(rng.randint(1, 3))]
+        bulge = rng.choice([-2.5, -1.0, -0.5, -0.1, 0.1, 0.5, 1.0, 2.5, rng.uniform(-3, 3)])
+        last = (_dy(rng), _dy(rng))
+        close = rng.random() < 0.3 and len(pts) >= 2
+        segs = rng.choice((1, 1, 3, 4, 6, 8, 12))
+        if close:
+            # the bulge belongs to the closing segment (last vertex -> first vertex)
+            points = [(x, y, 0.0) for x, y, _ in pts] + [(last[0], last[1], bulge)]
+            p2 = (pts[0][0], pts[0][1], 0.0)
+            pre = [("N", (pts[0][0], pts[0][1], 0.0))] + [("L", (x, y, 0.0)) for x, y, _ in pts[1:]] + [("L", (last[0], last[1], 0.0))]
+        else:
+            points = [(x, y, 0.0) for x, y, _ in pts[:-1]] + [(pts[-1][0], pts[-1][1], bulge), (last[0], last[1], 0.0)]
+            p2 = (last[0], last[1], 0.0)
+            pre = [("N", (pts[0][0], pts[0][1], 0.0))] + [("L", (x, y, 0.0)) for x, y, _ in pts[1:]]
+        rec = []
+
+        def hook(ellipse, segments=1, rec=rec):
+            cs = list(orig(ellipse, segments))
+            rec.append(cs)
+            return cs
+
+        tools.cubic_bezier_from_ellipse = hook
+        try:
+            p = Path()
+            tools.add_2d_polyline(p, points, close=close, ocs=OCS(), elevation=0, segments=segs)
+        finally:
+            tools.cubic_bezier_from_ellipse = orig
+        if not rec:
+            continue  # coinciding end points: bulge_to returned early
+        arcs = "^".join("~".join(_curve_txt(c) for c in cs) for cs in rec)
+        ctx.hist(stream, f"bulge{'<0' if bulge < 0 else '>0'}/num_bez={len(rec)}")
+        cases.append((f"bulge|{ops_txt(pre)}|{pt(p2)}|{arcs}", show_path(p), True))
+    for i in range(ctx.n(300, 2000)):
+        pool = [_dpt(rng) for _ in range(3)]
+        vs = [rng.choice(pool) if rng.random() < 0.5 else _dpt(rng) for _ in range(rng.randint(0, 7))]
+        close = rng.random() < 0.5
+        p = converter.from_vertices(vs, close)
+        ctx.hist(stream, "from_vertices")
+        cases.append((f"fromv|{1 if close else 0}|" + ",".join(pt(v) for v in vs), show_path(p), len(vs) > 2))
+        # the same points as a 2D polyline without bulges (z = 0): add_2d_polyline keeps every point
+        vs2 = [(v[0], v[1], 0.0) for v in vs]
+        p2 = Path()
+        tools.add_2d_polyline(p2, [(v[0], v[1], 0.0) for v in vs2], close=close, ocs=OCS(), elevation=0)
+        ctx.hist(stream, "add_2d_polyline(no bulges)")
+        cases.append((f"poly2d|{1 if close else 0}|" + ",".join(pt(v) for v in vs2), show_path(p2), len(vs2) > 2))
+    ctx.correspond(stream, "C14", cases, build=_deps_once(ctx))
+
+
+def path_to_ops(p):
+    """a real Path as operations of the driver's path machine (N start, then one operation per command)"""
+    from ezdxf.path import Command
+
+    ops = [("N", tuple(p.start))]
+    for c in p.commands():
+        t = c.type
+        if t == Command.LINE_TO:
+            ops.append(("L", tuple(c.end)))
+        elif t == Command.MOVE_TO:
+            ops.append(("M", tuple(c.end)))
+        elif t == Command.CURVE3_TO:
+            ops.append(("Q", tuple(c.end), tuple(c.ctrl)))
+        else:
+            ops.append(("C", tuple(c.end), tuple(c.ctrl1), tuple(c.ctrl2)))
+    return ops
+
+
+def correspond_make_path_hook(ctx):
+    """every call of tools.add_bezier4p made by make_path(entity) over the entity generator of oracle O5 (ARC, CIRCLE,
+    ELLIPSE, SPLINE, LWPOLYLINE/POLYLINE bulges, HATCH edges, ...): path before + curves -> path after, against the model"""
+    import ezdxf
+    from ezdxf.path import make_path, tools
+
+    stream = "X9 make_path(entity): every add_bezier4p call (path before, curves of the construction tool) -> path after"
+    doc = ezdxf.new()
+    msp = doc.modelspace()
+    rng = ctx.rng("mp-hook")
+    orig = tools.add_bezier4p
+    calls = []
+
+    def hook(path, curves):
+        curves = list(curves)
+        before = path_to_ops(path)
+        if path.has_sub_paths and len(path) and path.command_codes()[-1] == 4:
+            before = None  # trailing MOVE_TO cannot be rebuilt exactly through move_to() after move_to(): not produced here
+        orig(path, curves)
+        if before is not None and curves:
+            calls.append((before, curves, show_path(path)))
+
+    cases = []
+    tools.add_bezier4p = hook
+    try:
+        for i, (kind, e, T, tol, size, conic, rep) in enumerate(entity_cases(ctx, msp)):
+            del calls[:]
+            seg = rng.choice([1, 1, 2, 4, 8]) if conic else 1
+            try:
+                make_path(e, segments=seg) if seg != 1 else make_path(e)
+            except Exception:  # noqa  (reported by oracle O5)
+                continue
+            for before, curves, after in calls[:6]:
+                ctx.hist(stream, kind.split("-")[0])
+                cases.append((f"addbez|4|{ops_txt(before)}|" + "~".join(_curve_txt(c) for c in curves), after, True))
+    finally:
+        tools.add_bezier4p = orig
+    ctx.correspond(stream, "C14", cases, build=_deps_once(ctx))
+
+
+def correspond_ellipse_prelude(ctx):
+    """the parameter prelude of ConstructionEllipse.flattening: the model computes (param, end_param, delta) exactly from
+    start_param, end_param, param_span (all doubles = exact rationals) and the double math.tau; float `%` is exact, float
+    `+` and `/` are correctly rounded, so the real values must be the model's values rounded to double.  Observed on the
+    real code through the recorded cos() arguments: first = param, last = end_param, second = param + delta (or the snap)."""
+    import ezdxf.math.ellipse as em
+    from ezdxf.math import ConstructionEllipse
+
+    stream = "X10 ConstructionEllipse.flattening parameter prelude (normalisation, wrap, full ellipse with any start)"
+    rng = ctx.rng("prelude")
+    tau = math.tau
+    obs, lines = [], []
+    for i in range(ctx.n(600, 5000)):
+        mode = rng.choice(["rnd", "rnd", "wrap", "full", "full-shifted", "neg", "big", "tiny", "tau-end", "equal"])
+        a = rng.uniform(0, tau)
+        if mode == "rnd":
+            b = rng.uniform(0, tau)
+        elif mode == "wrap":
+            a, b = rng.uniform(3, tau), rng.uniform(0, 3)
+        elif mode == "full":
+            a, b = 0.0, tau
+        elif mode == "full-shifted":
+            a = rng.choice([rng.uniform(-10, 10), 1.0, -1.0, 0.5, 7.0, rng.randint(-8, 8) / 4])
+            b = a + tau
+        elif mode == "neg":
+            a, b = rng.uniform(-12, 0), rng.uniform(-12, 12)
+        elif mode == "big":
+            a, b = rng.uniform(0, 40), rng.uniform(0, 40)
+        elif mode == "tiny":
+            b = a + rng.choice([1e-3, 1e-6, 1e-8])
+        elif mode == "tau-end":
+            b = tau
+        else:
+            b = a
+        segs = rng.choice([1, 2, 3, 4, 8, 16])
+        try:
+            ell = ConstructionEllipse(major_axis=(4, 0, 0), ratio=0.5, start_param=a, end_param=b)
+        except Exception:  # noqa
+            continue
+        rec: list[float] = []
+        saved = em.math
+        em.math = _MathProxy(rec)
+        try:
+            try:
+                n_vertices = len(bounded(ell.flattening(100.0, segs)))  # huge distance: no subdivision, outer loop only
+            except Exception as e:  # noqa
+                n_vertices = -1
+        finally:
+            em.math = saved
+        if n_vertices < 0:
+            continue
+        obs.append((mode, ell.start_param, ell.end_param, ell.param_span, segs, rec, n_vertices))
+        lines.append(f"prelude|{fs(ell.start_param)}|{fs(ell.end_param)}|{fs(ell.param_span)}|{segs}")
+    outs = ctx.driver("C14", lines, build=_deps_once(ctx))
+    for (mode, a, b, span, segs, rec, nv), line, out in zip(obs, lines, outs):
+        ctx.hist(stream, mode)
+        ctx.count(stream, line, True, sample={"request": line[:200], "impl": repr((rec[:2], rec[-1:] , nv))[:200], "model": out[:200]})
+        ctx.cov["disagreements_checked"] += 1
+        if out == "none":
+            if nv != 0:
+                ctx.disagree(stream, line, f"{nv} vertices, parameters {rec[:3]}", "none (no vertex)")
+            continue
+        p, e, dl = (Fr(x) for x in out.split(","))
+        pf, ef, dlf = float(p), float(e), float(dl)
+        nxt = pf + dlf
+        if math.isclose(nxt, ef):
+            nxt = ef
+        ok = nv >= 2 and len(rec) >= 2 and rec[0] == pf and rec[1] == nxt and max(rec) == ef
+        if not ok:
+            ctx.disagree(stream, line, f"{nv} vertices, first/second/last parameter {rec[:2]} {max(rec) if rec else None}",
+                         f"param={pf!r} next={nxt!r} end_param={ef!r}")
+
+
+def correspond_hatch_edges(ctx):
+    """converter.from_hatch_edge_path on generated edge paths of line and (counter-clockwise) arc edges whose end points come
+    from a small pool, so that all connection cases occur: end-start, end-end, start-end, start-start, gap after a closed
+    loop (new loop), gap after an open loop (bridged).  The per-edge segment paths are inputs of the model (built here the
+    way the converter builds them), the loop assembly is the model's `edgePath`."""
+    from ezdxf.entities.boundary_paths import EdgePath
+    from ezdxf.math import ConstructionEllipse, Z_AXIS, Vec3
+    from ezdxf.path import Path, converter, tools
+
+    stream = "X11 converter.from_hatch_edge_path: joining line / arc edges into closed loops (multi-path)"
+    rng = ctx.rng("hatch-edges")
+    cases = []
+    for i in range(ctx.n(700, 6000)):
+        pool = [(_dy(rng), _dy(rng)) for _ in range(rng.randint(2, 5))]
+        ep = EdgePath()
+        segs = []
+        cur = rng.choice(pool)
+        for _ in range(rng.randint(1, 7)):
+            k = rng.random()
+            if k < 0.15:
+                # quarter / half circle around a pool point: computed end points, consecutive arcs share them exactly
+                c = rng.choice(pool)
+                r = rng.choice([1.0, 2.0, 0.5])
+                a0 = rng.choice([0.0, 90.0, 180.0, 270.0])
+                a1 = a0 + rng.choice([90.0, 180.0])
+                ep.add_arc(c, r, a0, a1, ccw=True)
+                e = ep.edges[-1]
+                ell = ConstructionEllipse.from_arc(center=(c[0], c[1], 0), radius=e.radius, extrusion=Z_AXIS,
+                                                   start_angle=e.start_angle, end_angle=e.end_angle)
+                seg = Path()
+                tools.add_ellipse(seg, ell, reset=True)
+                segs.append(seg)
+                cur = (float(seg.end.x), float(seg.end.y))
+                continue
+            mode = rng.choice(["chain", "chain", "chain", "rev", "jump", "front"])
+            nxt = rng.choice(pool) if rng.random() < 0.7 else (_dy(rng), _dy(rng))
+            if mode == "chain":
+                a, b = cur, nxt
+            elif mode == "rev":
+                a, b = nxt, cur
+            elif mode == "front":
+                a, b = nxt, rng.choice(pool)
+            else:
+                a, b = rng.choice(pool), nxt
+            ep.add_line(a, b)
+            seg = Path(Vec3(a[0], a[1], 0))
+            seg.line_to(Vec3(b[0], b[1], 0))
+            segs.append(seg)
+            cur = b
+        try:
+            real = converter.from_hatch_edge_path(ep, None, 0)
+        except Exception as ex:  # noqa
+            ctx.fail(f"make_path/raise/HATCH-edge-path/{type(ex).__name__}/{i}", f"from_hatch_edge_path raised {ex!r} for edges {[type(e).__name__ for e in ep.edges]}", {"op": "hatch-edges", "id": str(i)})
+            continue
+        n_loops = len(list(real.sub_paths())) if len(real) else 0
+        ctx.hist(stream, f"loops={min(n_loops, 3)}{'+' if n_loops > 3 else ''}")
+        cases.append(("edges|" + "^".join(ops_txt(path_to_ops(sg)) for sg in segs), show_path(real), len(segs) > 1))
+    ctx.correspond(stream, "C14", cases, build=_deps_once(ctx))
+
+
 def correspond(ctx):
+    correspond_hatch_edges(ctx)
+    correspond_ellipse_prelude(ctx)
+    correspond_make_path_hook(ctx)
     correspond_bezier(ctx)
     correspond_beziern(ctx)
     correspond_bspline(ctx)
     correspond_ellipse(ctx)
+    correspond_path_ops(ctx)
+    correspond_path_flattening(ctx)
+    correspond_add_bezier(ctx)
+    correspond_polyline_assembly(ctx)
 
 
 # ====================================================================== oracle (real code only)
@@ -1198,8 +1795,9 @@ def line_dist(p, a, b) -> float:
 
 def check_run(ctx, st, name, tv, P, d, min_chords, t_first, t_last, first_val, last_val, scale, rep, exact_ends, key_extra="", line_test=False):
     """the property's predicate on one flattening run; `tv` = [(t, vertex)], P = independent evaluation.
-    `line_test`: the code documents (and tests) the distance to the LINE through the chord ends (B-spline, ellipse);
-    a run that meets it but not the distance to the chord itself is reported in the separate class `chord-end`."""
+    `line_test` (no caller since the fixes 5dd05e20e / c03295f49; B-spline and ellipse tested the distance to the LINE through
+    the chord ends before): a run that meets the line distance but not the distance to the chord itself is reported in the
+    separate class `chord-end`."""
     bad = None
     cls = "other"
     if len(tv) < 2:
@@ -1447,7 +2045,7 @@ def oracle_bspline(ctx):
         first, last = P(kn[0]), P(kn[-1])
         sub = "bigknots" if kind.startswith("bigknots") else ""
         check_run(ctx, st, "bspline", tv, P, d, segs * (len(kn) - 1), kn[0], kn[-1], first, last, scale, rep, False,
-                  key_extra=(sub + "/") if sub else "", line_test=True)
+                  key_extra=(sub + "/") if sub else "")
 
 
 def oracle_ellipse(ctx):
@@ -1522,7 +2120,7 @@ def oracle_ellipse(ctx):
         t_last = tv[-1][0] if tv and tv[-1][0] is not None and abs(tv[-1][0] - p1) <= 1e-9 * max(1.0, abs(p1)) else p1
         sub = "full-shifted/" if (mode == "full-shifted" and not verts) else ""
         check_run(ctx, st, "ellipse", tv, P, d, segs, p0, t_last, key3(ell.start_point), key3(ell.end_point), scale, rep, False,
-                  key_extra=sub, line_test=True)
+                  key_extra=sub)
 
 
 # ---------------------------------------------------------------------- O5 make_path(entity) vs the entity's own geometry
@@ -2109,7 +2707,47 @@ def np_arr(vs):
 
 
 
+def oracle_far_circle(ctx):
+    """full circles given as closed LWPOLYLINE of two bulge=1 vertices (the usual way CAD applications write a circle as
+    polyline) at a distance from the origin where the whole circle lies within the default `isclose` tolerance
+    (diameter <= 1e-9 * |coordinate|): the path must still run once around the whole circle"""
+    import ezdxf
+    from ezdxf.path import make_path
+
+    np = _np()
+    st = "O7 make_path(full circle LWPOLYLINE) far from the origin: the path covers the whole circle"
+    rng = ctx.rng("far-circle")
+    doc = ezdxf.new()
+    msp = doc.modelspace()
+    for i in range(ctx.n(60, 400)):
+        mag = 10.0 ** rng.uniform(3, 8)
+        cx, cy = mag * rng.uniform(0.5, 1.0), mag * rng.uniform(0.05, 1.0)
+        rel = 10.0 ** rng.uniform(-9.4, -6)  # diameter relative to the coordinate magnitude (above IS_CLOSE_TOL = 1e-10)
+        r = max(abs(cx), abs(cy)) * rel / 2
+        pts = [(cx - r, cy, 1.0), (cx + r, cy, 1.0)]
+        e = msp.add_lwpolyline(pts, format="xyb", close=True)
+        rep = {"op": "far-circle", "points": pts, "id": str(i)}
+        ctx.hist(st, "within-isclose" if rel <= 1e-9 else "regular")
+        ctx.count(st, repr(pts), True)
+        try:
+            P = make_path(e)
+            R = np.array([key3(v) for v in bounded(P.flattening(r * 1e-3, segments=8))])
+        except Exception as ex:  # noqa
+            ctx.fail(f"make_path/raise/LWPOLYLINE-far-circle/{type(ex).__name__}/{i}", f"make_path(full circle LWPOLYLINE) {rep} raised {ex!r}", rep)
+            continue
+        if len(R) == 0:
+            ctx.fail(f"make_path/empty/LWPOLYLINE-far-circle/{i}", f"make_path(full circle LWPOLYLINE) {rep} returned an empty path", rep)
+            continue
+        ymax, ymin = R[:, 1].max() - pts[0][1], R[:, 1].min() - pts[0][1]
+        eps = 0.05 * r + 4 * math.ulp(max(abs(cx), abs(cy)))
+        if not (abs(ymax - r) <= eps and abs(ymin + r) <= eps):
+            ctx.fail(f"make_path/far-circle/{i}",
+                     f"make_path(closed LWPOLYLINE {pts}, both bulges 1 = full circle of radius {r!r}): the path covers y in "
+                     f"[{ymin!r}, {ymax!r}] around the centre line, expected [-{r!r}, {r!r}] ({len(P)} commands)", rep)
+
+
 def oracle(ctx):
+    oracle_far_circle(ctx)
     oracle_arcs(ctx)
     oracle_bezier(ctx)
     oracle_bspline(ctx)
